@@ -255,6 +255,47 @@ theorem setItem_rejects (s : Seq α) (i : Int) (sym : α) (h : sym ∉ s.alph) :
     s.setItem i sym = .error .alphabetError := by
   simp [Seq.setItem, encode1_error_iff.mpr h]
 
+/-- Decoding is injective on code lists for an alphabet without duplicate symbols. -/
+theorem decode_inj (alph : List α) (hnd : alph.Nodup) (c1 c2 : List Nat) (x : List α)
+    (h1 : decode alph (c1.map Int.ofNat) = .ok x) (h2 : decode alph (c2.map Int.ofNat) = .ok x) : c1 = c2 := by
+  induction c1 generalizing c2 x with
+  | nil =>
+    simp [decode, mapE] at h1; subst h1
+    cases c2 with
+    | nil => rfl
+    | cons d ds =>
+      obtain ⟨_, _, _, _, hx⟩ := mapE_cons_inv _ _ _ _ h2
+      cases hx
+  | cons c cs ih =>
+    obtain ⟨s, xs, hs, hxs, rfl⟩ := mapE_cons_inv _ _ _ _ h1
+    cases c2 with
+    | nil => simp [decode, mapE] at h2
+    | cons d ds =>
+      obtain ⟨s', xs', hs', hxs', hx⟩ := mapE_cons_inv _ _ _ _ h2
+      simp only [List.cons.injEq] at hx
+      obtain ⟨rfl, rfl⟩ := hx
+      have e1 := indexOf?_of_getElem hnd (decode1_ok hs).2.2
+      have e2 := indexOf?_of_getElem hnd (decode1_ok hs').2.2
+      simp only [Int.ofNat_eq_natCast, Int.toNat_natCast] at e1 e2
+      rw [e1] at e2
+      simp only [Option.some.injEq] at e2
+      subst e2
+      rw [ih ds xs hxs hxs']
+
+/-- `==` is equality of the symbol strings *together with* class and alphabet. -/
+theorem beq_iff_symbols (a b : Seq α) (hnd : a.alph.Nodup) (x y : List α)
+    (ha : a.symbols = .ok x) (hb : b.symbols = .ok y) :
+    a.beq b = true ↔ a.kind = b.kind ∧ a.alph = b.alph ∧ x = y := by
+  obtain ⟨ka, aa, ca⟩ := a
+  obtain ⟨kb, ab, cb⟩ := b
+  simp only [Seq.beq, Bool.and_eq_true, decide_eq_true_eq, and_assoc]
+  constructor
+  · rintro ⟨rfl, rfl, rfl⟩
+    rw [ha] at hb
+    exact ⟨rfl, rfl, Except.ok.inj hb⟩
+  · rintro ⟨rfl, rfl, rfl⟩
+    exact ⟨rfl, rfl, decode_inj aa hnd ca cb x ha hb⟩
+
 end Laws
 
 end BiotiteModel.C03
